@@ -70,8 +70,10 @@ Definition api_generate_state_init (pk : bits) (v : version) (net : option Z) (w
 (** *** account state and NextMessageParams *)
 Inductive acct := ANone | AUninit | AFrozen | AActive (data : cell).
 
-(* HashmapE[K, V] read from the rest of a data cell; only success matters *)
-Definition hashmap_e_ok (n : nat) (vbits : nat) (l : bits) (refs : list cell) : res unit :=
+(* HashmapE[K, V] read from the rest of a data cell: the keys in the order
+   Keys() returns them.  A value that is too short for V fails the whole decode
+   (V = Any: 0 bits, Uint1: 1, Uint8: 8). *)
+Definition dict_keys (n vbits : nat) (l : bits) (refs : list cell) : res (list bits) :=
   do b <- take 1 l;
   if nth 0 (fst b) false then
     match refs with
@@ -80,31 +82,51 @@ Definition hashmap_e_ok (n : nat) (vbits : nat) (l : bits) (refs : list cell) : 
         match to_dict r with
         | None => Err EUnmodelled
         | Some d =>
-            do _ <- Hashmap.decode (fun vl _ => if short vbits vl then None else Some tt) n d;
-            Ok tt
+            do kvs <- Hashmap.decode Hashmap.vdec_any n d;
+            if forallb (fun kv => match snd kv with Dict.Cell vb _ => negb (short vbits vb) end) kvs
+            then Ok (map fst kvs) else Err ENotEnoughBits
         end
     end
-  else Ok tt.
+  else Ok [].
 
-(* the seqno field of the version's data struct; the whole struct must decode *)
-Definition seqno_of_data (v : version) (d : cell) : res N :=
+(* the fields of the version's data struct (DataV3, DataV4, DataV5Beta,
+   DataV5R1, DataHighloadV2): seqno, sub-wallet / wallet id (v5 beta: the 80 bits
+   of WalletV5ID), public key, signature-allowed flag (v5r1), last-cleaned
+   time (highload), dictionary keys *)
+Record wdata := mkwd { wd_seqno : N; wd_id : N; wd_pk : bits; wd_flag : bool; wd_extra : N;
+                       wd_keys : list bits }.
+
+Definition decode_data (v : version) (d : cell) : res wdata :=
   match v with
   | V3R1 | V3R2 =>
-      do s <- take 32 (cdata d); do a <- take 32 (snd s); do _ <- take 256 (snd a);
-      Ok (N_of_bits (fst s))
+      do s <- take 32 (cdata d); do a <- take 32 (snd s); do k <- take 256 (snd a);
+      Ok (mkwd (N_of_bits (fst s)) (N_of_bits (fst a)) (fst k) false 0 [])
   | V4R1 | V4R2 =>
       do s <- take 32 (cdata d); do a <- take 32 (snd s); do k <- take 256 (snd a);
-      do _ <- hashmap_e_ok 264 0 (snd k) (crefs d);
-      Ok (N_of_bits (fst s))
+      do ks <- dict_keys 264 0 (snd k) (crefs d);
+      Ok (mkwd (N_of_bits (fst s)) (N_of_bits (fst a)) (fst k) false 0 ks)
   | V5Beta =>
       do s <- take 33 (cdata d); do a <- take 80 (snd s); do k <- take 256 (snd a);
-      do _ <- hashmap_e_ok 256 8 (snd k) (crefs d);
-      Ok (N_of_bits (fst s) mod 4294967296)%N            (* uint32(data.Seqno) *)
+      do ks <- dict_keys 256 8 (snd k) (crefs d);
+      Ok (mkwd (N_of_bits (fst s)) (N_of_bits (fst a)) (fst k) false 0 ks)
   | V5R1 =>
       do f <- take 1 (cdata d);
       do s <- take 32 (snd f); do a <- take 32 (snd s); do k <- take 256 (snd a);
-      do _ <- hashmap_e_ok 256 1 (snd k) (crefs d);
-      Ok (N_of_bits (fst s))
+      do ks <- dict_keys 256 1 (snd k) (crefs d);
+      Ok (mkwd (N_of_bits (fst s)) (N_of_bits (fst a)) (fst k) (nth 0 (fst f) false) 0 ks)
+  | HLV2R2 =>
+      do a <- take 32 (cdata d); do t <- take 64 (snd a); do k <- take 256 (snd t);
+      do ks <- dict_keys 64 0 (snd k) (crefs d);
+      Ok (mkwd 0 (N_of_bits (fst a)) (fst k) false (N_of_bits (fst t)) ks)
+  | _ => Err EWallet
+  end.
+
+(* the seqno NextMessageParams takes: the whole struct must decode; v5 beta
+   keeps a 33-bit field and converts with uint32(...) *)
+Definition seqno_of_data (v : version) (d : cell) : res N :=
+  match v with
+  | V3R1 | V3R2 | V4R1 | V4R2 | V5R1 => do x <- decode_data v d; Ok (wd_seqno x)
+  | V5Beta => do x <- decode_data v d; Ok (wd_seqno x mod 4294967296)%N
   | _ => Err EWallet
   end.
 
